@@ -192,6 +192,28 @@ def run(chk):
                 break
         if log != ["Gamma." + call.split(":")[1] for call in calls if not call.endswith(":fail")]:
             chk.monitor_fail("tiny-message calls %s reached the handlers %s" % ([x.split(":")[1] for x in calls], log), dict(case=c, impl=a[:400]))
+    # large messages: nothing in the property bounds a message's size (lengths around powers of two up to a few MiB, both
+    # codecs); the handler echoes the message, the caller must get back exactly what it sent
+    sizes = [65535, 65536, 1 << 20, (1 << 20) + 1, 3 << 20] if quick else [255, 65535, 65536, 65537, (1 << 20) - 9, 1 << 20, (1 << 20) + 1, 2 << 20, 3 << 20, (4 << 20) + 5, 6 << 20]
+    # (json spells every byte as a decimal number: a third of the sizes is enough there)
+    big = ["typed " + " ".join("big:%s:%d:%d" % (m, n, chk.rng.randrange(256)) for n in (sizes if m == "VecBin" else sizes[1::3])) + " tiny:VecBin:0102" for m in ("VecBin", "VecJson")]
+    for c, a in zip(big, run_impl("codegen", big, shards=2)):
+        chk.evaluations += 1
+        chk.nontriv(c)
+        calls = c.split()[1:]
+        if a.startswith(("PANIC", "CRASH", "TIMEOUT", "HANG")) or " | " not in a:
+            chk.monitor_fail("a typed call with a large message panicked", dict(case=c, impl=a[:300]))
+            continue
+        outs, log = a.split(" | ")
+        outs, log = outs.split(), ([] if log == "-" else log.split())
+        for call, o in zip(calls[:-1], outs):
+            f = call.split(":")
+            chk.count("large-message:" + f[1])
+            if not o.startswith("ok:same:200:") or "done=31" not in o:
+                chk.monitor_fail("typed call %s with a message of %s bytes (frame limit 8 MiB): the handler echoes it with a header, the caller got %s" % (f[1], f[2], o[:120]), dict(case=c, impl=a[:400]))
+                break
+        if log != ["Gamma." + call.split(":")[1] for call in calls]:
+            chk.monitor_fail("large-message calls %s reached the handlers %s" % ([x.split(":")[1] for x in calls], log), dict(case=c, impl=a[:400]))
     chk.assumptions += ["serde_json / bincode message codecs are assumed to round-trip (Section hypotheses dec_enc_q / dec_enc_r of the typed-call theorems)",
                         "texts of framework-generated errors (codec failures) are not modelled: they are canonicalised to '*' before comparison"]
     if not quick:
